@@ -405,6 +405,7 @@ package graphql
 //@ func assertObjectImplementsInterface
 //@   props C11
 //@   nosafety
+//@   assigns nothing
 //@   loop 1 ensures forall j in 0..len(objectField.Args): (exists i in 0..len(ifaceField.Args): ifaceField.Args[i].PrivateName == objectField.Args[j].PrivateName) || !typeis(objectField.Args[j].Type, "*graphql.NonNull")
 //@   loop 1 ensures objectField != nil && isTypeSubTypeOf_0(schema, objectField.Type, ifaceField.Type)
 //@   loop 4 invariant forall j in 0..rangeindex+1: (exists i in 0..len(ifaceField.Args): ifaceField.Args[i].PrivateName == objectField.Args[j].PrivateName) || !typeis(objectField.Args[j].Type, "*graphql.NonNull")
@@ -538,4 +539,5 @@ package graphql
 //@ func NewSchema
 //@   props C07
 //@   nosafety
+//@   opt split=4
 //@   ensures result0.possibleTypeMap == nil
